@@ -258,7 +258,7 @@ func init() {
 		Rule:        "case = generated grammar of named productions (every operator, nesting, recursion, unions, typed literals, modifiers applied to modified groups, bracket forms). Parser.String() must not panic, must parse with ebnf.ParseString, start with the root, define every referenced production exactly once, and contain exactly the multiset of literals, token references, production references and operators (? * + ! ~ (?= (?!) of the reachable grammar; printing the parsed EBNF tree and parsing again must give an equal tree (print/parse fixpoint). Non-trivial: the grammar uses >=3 distinct operators or applies a modifier to a modified group. Distinct by grammar IR.",
 		Assumptions: []string{"anonymous struct productions are outside the statement (named productions only)", "completeness is judged on multisets, not on tree shape"},
 		Batches:     func(t string) int { return pick(t, 4, 16) },
-		Floor:       func(t string) int { return pick(t, 200, 3000) },
+		Floor:       func(t string) int { return pick(t, 100, 1200) },
 		TimeoutSec:  func(t string) int { return pick(t, 600, 1800) },
 		Prepare:     gramPrepare("C14", func(t string) int { return pick(t, 150, 400) }, c14Opts, nil, false),
 		Child:       c14Child,
